@@ -8,12 +8,12 @@
 package sibling
 
 import (
-	"os"
 	"fmt"
 	"go/constant"
 	"go/token"
 	"go/types"
 	"math/big"
+	"os"
 	"sort"
 	"strings"
 
@@ -62,11 +62,11 @@ type Diff struct {
 
 type cmp struct {
 	resA, resB func(ssa.Value) ssa.Value
-	a, b   *Modulus
-	memo   map[[2]ssa.Value]bool
-	first  *Diff
-	fnName string
-	nodes  int
+	a, b       *Modulus
+	memo       map[[2]ssa.Value]bool
+	first      *Diff
+	fnName     string
+	nodes      int
 	// round comparison inside one function: values of the earlier round's inputs map to the later round's inputs;
 	// the operand limb arg1[i] of the earlier round corresponds to arg1[i+1]
 	leaf      map[ssa.Value]ssa.Value
@@ -503,7 +503,6 @@ func (c *cmp) sameR(x, y ssa.Value, ra, rb func(ssa.Value) ssa.Value) bool {
 	return c.same(x, y)
 }
 
-
 // CompareLiterals is the weaker check for primitives whose shape legitimately differs between the two moduli
 // (ToMontgomery, SetOne: multiplications by zero limbs of R^2 mod m are pruned by the generator): every large
 // literal must have a role for its own modulus.
@@ -685,8 +684,6 @@ func TailOK(fn *ssa.Function, m *Modulus) (applies, ok bool, pos token.Pos, msg 
 	}
 	return true, true, token.NoPos, ""
 }
-
-
 
 // RoundsResult reports the comparison of consecutive reduction rounds inside one word-by-word Montgomery primitive.
 type RoundsResult struct {
@@ -897,7 +894,6 @@ func Rounds(fn *ssa.Function, m *Modulus) RoundsResult {
 	}
 	return res
 }
-
 
 // SetOneOK decides SetOne exactly: one block, four stores out1[i] = limb i of R mod m, every index once.
 func SetOneOK(fn *ssa.Function, m *Modulus) (bool, token.Pos, string) {
